@@ -1,0 +1,8 @@
+//go:build !verif
+
+package radius
+
+// verifCrashPoint marks a persistence/transmit step of the accounting manager
+// for the crash-injection check of property C08.  Without the `verif` build
+// tag it is an empty function that the compiler inlines away.
+func verifCrashPoint(site, sessionID string) {}
